@@ -117,13 +117,19 @@ RECURSIVE Attach(_, _, _)
 Attach(mem, slots, n) ==
   IF slots = <<>> THEN mem
   ELSE LET a == Head(slots)[1]
-           tt == Head(slots)[2].to
+           rt == Head(slots)[2]
+           tid == IF rt.k = "ref" THEN 0 ELSE n % Len(rt.of)        \* union references: the members in turn
+           tt == TargetType(rt, tid)
            padded == PadTo(mem, Slot(Len(mem)) + 8 * (n % 2))       \* referents at varying distances
            at == Len(padded)
-           patched == SubSeq(padded, 1, a) \o W64(at - a) \o SubSeq(padded, a + 9, Len(padded))
+           words == W64(at - a) \o (IF rt.k = "uref" THEN W64(tid) ELSE <<>>)
+           patched == SubSeq(padded, 1, a) \o words \o SubSeq(padded, a + Len(words) + 1, Len(padded))
        IN Attach(patched \o Encode(tt, Canon(tt, 1, 7 + n)), Tail(slots), n + 1)
+(* every plain reference and every second union reference gets a referent (the other union references stay null) *)
 Image(ty, ext) == LET enc == Encode(ty, Canon(ty, ext, 1))
-                  IN Attach(enc, SetToSeq({s \in RefSlots(ty, enc, 0) : s[2].k = "ref"}), 0)
+                      rs == SetToSeq({s \in RefSlots(ty, enc, 0) : s[2].k = "ref"})
+                      us == SetToSeq({s \in RefSlots(ty, enc, 0) : s[2].k = "uref"})
+                  IN Attach(enc, rs \o SelectSeq(us, LAMBDA s : (s[1] \div 8) % 2 = 0), 0)
 
 (* ---------------------- the accessors built on the offset program ---------------------- *)
 (* one record per generated function: [p, kind, ops, c, w]                                   *)
@@ -132,6 +138,7 @@ Image(ty, ext) == LET enc == Encode(ty, Canon(ty, ext, 1))
 (*   len     c * product of the header words w (8-byte words after obj + offset); a static   *)
 (*           shape has no offset program at all (ops = <<>>, the constant is returned)       *)
 (*   typeid  the word at obj + offset, the program ends with `add 8` (member index)          *)
+(*   member  returns obj + offset, the program ends with `ld 0` (address of the referent)    *)
 RECURSIVE EndType(_, _)
 EndType(t, p) == IF p = <<>> THEN t
                  ELSE IF IsF(Head(p)) THEN EndType(t.f[Head(p).f], Tail(p))
@@ -147,7 +154,8 @@ AccOf(t, p) ==
      \cup (IF et.k = "sc" THEN {Acc(p, "get", g, et.w, <<>>), Acc(p, "set", g, et.w, <<>>)} ELSE {})
      \cup (IF et.k = "arr" THEN {IF NDyn(et) = 0 THEN Acc(p, "len", <<>>, StaticFactor(et), <<>>)
                                   ELSE Acc(p, "len", g, StaticFactor(et), [n \in 1..NDyn(et) |-> n])} ELSE {})
-     \cup (IF et.k = "uref" THEN {Acc(p, "typeid", g \o <<Op("add", 8, <<>>, 0)>>, 0, <<>>)} ELSE {})
+     \cup (IF et.k = "uref" THEN {Acc(p, "typeid", g \o <<Op("add", 8, <<>>, 0)>>, 0, <<>>),
+                                   Acc(p, "member", g \o <<Op("ld", 0, <<>>, 0)>>, 0, <<>>)} ELSE {})
 AccResult(e, mem, a, idx) ==
   LET off == Run(e.ops, mem, a, idx)
       RECURSIVE PW(_)
@@ -156,18 +164,23 @@ AccResult(e, mem, a, idx) ==
        [] e.kind \in {"get", "set"} -> <<off, e.c>>
        [] e.kind = "len" -> e.c * PW(Len(e.w))
        [] e.kind = "typeid" -> I64(mem, off)
+       [] e.kind = "member" -> off
 AccExpected(kind, nv, mem) ==
   CASE kind = "getp" -> nv.a
     [] kind \in {"get", "set"} -> <<nv.a, nv.t.w>>
     [] kind = "len" -> NItems(Shape(nv.t, mem, nv.a))
     [] kind = "typeid" -> Decode(nv.t, mem, nv.a).tid
+    [] kind = "member" -> Decode(nv.t, mem, nv.a).at
+(* the member address of a NULL union reference is not defined: such (path, kind) pairs are not claimed *)
+Claimed(kind, nv, mem) == kind = "member" => ~IsNull(mem, nv.a)
 AccRefines(t, mem, a) ==
-  \A p \in AllPaths(t, mem, a) : \A e \in AccOf(t, Shape0(p)) : AccResult(e, mem, a, Idxs(p)) = AccExpected(e.kind, Nav(t, mem, a, p), mem)
+  \A p \in AllPaths(t, mem, a) : \A e \in AccOf(t, Shape0(p)) :
+      Claimed(e.kind, Nav(t, mem, a, p), mem) => AccResult(e, mem, a, Idxs(p)) = AccExpected(e.kind, Nav(t, mem, a, p), mem)
 (* a GIVEN accessor table (parsed from real source) against the format: the (path, kind) pairs that disagree *)
 AccDisagree(t, mem, a, table) ==
   {<<p, e.kind>> : p \in AllPaths(t, mem, a), e \in table} \cap
-  {x \in AllPaths(t, mem, a) \X {"getp", "get", "set", "len", "typeid"} :
-      \E e \in table : e.p = Shape0(x[1]) /\ e.kind = x[2] /\ AccResult(e, mem, a, Idxs(x[1])) # AccExpected(e.kind, Nav(t, mem, a, x[1]), mem)}
+  {x \in AllPaths(t, mem, a) \X {"getp", "get", "set", "len", "typeid", "member"} :
+      \E e \in table : e.p = Shape0(x[1]) /\ e.kind = x[2] /\ Claimed(e.kind, Nav(t, mem, a, x[1]), mem) /\ AccResult(e, mem, a, Idxs(x[1])) # AccExpected(e.kind, Nav(t, mem, a, x[1]), mem)}
 
 (* the refinement statement for one image *)
 Refines(t, mem, a) == \A p \in AllPaths(t, mem, a) : Run(Gen(t, p, 0, 0), mem, a, Idxs(p)) = Nav(t, mem, a, p).a
